@@ -4,6 +4,7 @@ go 1.24.0
 
 require (
 	github.com/golang/protobuf v1.5.4
+	github.com/itchio/arkive v0.0.0-20200618123031-1a30392a8cfe
 	github.com/itchio/go-brotli v0.0.0-20190702114328-3f28d645a45c
 	github.com/itchio/headway v0.0.0-20251229214354-da882c8b5dd4
 	github.com/itchio/lake v0.0.0-20200305150023-cc4284ec2b2a
@@ -32,7 +33,6 @@ require (
 	github.com/go-stack/stack v1.8.1 // indirect
 	github.com/gogs/chardet v0.0.0-20211120154057-b7413eaefb8f // indirect
 	github.com/hashicorp/golang-lru v1.0.2 // indirect
-	github.com/itchio/arkive v0.0.0-20200618123031-1a30392a8cfe // indirect
 	github.com/itchio/dskompress v0.0.0-20190702113811-5e6f499be697 // indirect
 	github.com/itchio/httpkit v0.0.0-20251231162950-9fb57e6ac916 // indirect
 	github.com/itchio/kompress v0.0.0-20200301155538-5c2eecce9e51 // indirect
